@@ -5,6 +5,7 @@ import (
 	"go/constant"
 	"go/token"
 	"go/types"
+	"regexp"
 	"sort"
 	"strings"
 
@@ -95,6 +96,10 @@ func derefT(t types.Type) types.Type {
 	}
 	return t
 }
+
+// the spellings of "the text after the last ':'" and of the position it is cut at
+var afterLastColon = regexp.MustCompile(`^(\$0\[\(strings\.LastIndex(Byte)?\(\$0,(":"|58)\) \+ 1\):\]|strings\.Split\(\$0,":"\)\[\(len\(strings\.Split\(\$0,":"\)\) - 1\)\])$`)
+var lastColon = regexp.MustCompile(`^strings\.LastIndex(Byte)?\(\$0,(":"|58)\)$`)
 
 func runC08(c *Ctx) {
 	// builders marshal and parsers decode the same models: their member names are the wire format's
@@ -537,7 +542,79 @@ func runC08(c *Ctx) {
 			c.Check("C08.P3", "create:request-info", ok, a.Pos(), fmt.Sprintf("create request info %v", ft))
 		}
 	}
-	c.Min("C08.P3", 9)
+	// the did suffix a request carries is the text after the LAST ':' of the DID — what the parser's ParseDID and the
+	// resolver take as the suffix (C17); a namespace may hold any number of ':' segments
+	if gus := c.Fn(pST, "getUniqueSuffix"); gus != nil {
+		c.Analysed(gus)
+		okS := len(successReturns(gus)) > 0
+		var got []string
+		for _, r := range successReturns(gus) {
+			p := c.Path(returnedValue(r, 0), nil)
+			got = append(got, p)
+			if !afterLastColon.MatchString(p) {
+				okS = false
+			}
+		}
+		c.Check("C08.P3", "getUniqueSuffix:after-last-colon", okS, gus.Pos(), fmt.Sprintf("the unique suffix is the segment after the last ':' of the id (returns %v)", got))
+		c.CheckGuard("C08.P3", "getUniqueSuffix:no-colon-refused", gus, nil, anyOf("an id without ':' is refused",
+			cmpReject(`LastIndex(id, ":") == -1 rejected`, token.EQL, lastColon.MatchString, pathIs("-1")),
+			cmpReject(`LastIndex(id, ":") < 0 rejected`, token.LSS, lastColon.MatchString, pathIs("0")),
+			cmpReject(`len(Split(id, ":")) < 2 rejected`, token.LSS, pathIs(`len(strings.Split($0,":"))`), pathIs("2"))))
+	} else {
+		c.Unresolved("C08.P3", "sidetree.getUniqueSuffix")
+	}
+	// a raw key carries exactly one key representation — the patch validator accepts exactly one of publicKeyJwk /
+	// publicKeyBase58 (C13.T2): no path of the builder writes both members, every accepting path writes one
+	if prk := c.Fn(pST+"/doc", "populateRawPublicKey"); prk != nil {
+		c.Analysed(prk)
+		var jwkW, b58W []*ssa.MapUpdate
+		forEachInstr(prk, func(in ssa.Instruction) {
+			if mu, ok := in.(*ssa.MapUpdate); ok {
+				switch unquote(c.Path(mu.Key, nil)) {
+				case "publicKeyJwk":
+					jwkW = append(jwkW, mu)
+				case "publicKeyBase58":
+					b58W = append(b58W, mu)
+				}
+			}
+		})
+		both := false
+		for _, a := range jwkW {
+			for _, b := range b58W {
+				if _, r := reach(a.Block(), nil)[b.Block()]; r {
+					both = true
+				}
+				if _, r := reach(b.Block(), nil)[a.Block()]; r {
+					both = true
+				}
+			}
+		}
+		c.Check("C08.P3", "raw-key:one-representation", len(jwkW) > 0 && len(b58W) > 0 && !both, prk.Pos(), fmt.Sprintf("publicKeyJwk is written at %d site(s), publicKeyBase58 at %d; a path writing both: %v", len(jwkW), len(b58W), both))
+		cut := map[edge]bool{}
+		for _, mu := range append(append([]*ssa.MapUpdate{}, jwkW...), b58W...) {
+			for _, sc := range mu.Block().Succs {
+				cut[edge{from: mu.Block(), to: sc}] = true
+			}
+		}
+		none := false
+		for b := range reach(prk.Blocks[0], cut) {
+			if r, isR := b.Instrs[len(b.Instrs)-1].(*ssa.Return); isR && maySucceed(r) {
+				written := false
+				for _, mu := range append(append([]*ssa.MapUpdate{}, jwkW...), b58W...) {
+					if mu.Block() == b {
+						written = true
+					}
+				}
+				if !written {
+					none = true
+				}
+			}
+		}
+		c.Check("C08.P3", "raw-key:some-representation", !none, prk.Pos(), "every accepting exit of populateRawPublicKey has written a key representation")
+	} else {
+		c.Unresolved("C08.P3", "doc.populateRawPublicKey")
+	}
+	c.Min("C08.P3", 9+4)
 
 	// ---- O1 remove-before-add
 	cup := c.Fn(pST, "createUpdatePatches")
